@@ -99,7 +99,7 @@ def gen_pair(rng, tier):
             G = F[rng.permutation(len(F))]          # must remain a reordering of F
         else:
             G = gen.entangle(rng, F, gen.specialize(rng, G, scale))
-    sigma = float(rng.choice([0.01, 0.1, 0.4, 0.4, 1.0, 10.0])) * (scale ** 2 if rng.random() < 0.5 else 1.0)
+    sigma = float(rng.choice([0.01, 0.1, 0.4, 0.4, 1.0, 10.0, 2.0, 3.0])) * (scale ** 2 if rng.random() < 0.5 else 1.0)
     return F, G, sigma, scale, style
 
 
@@ -114,6 +114,9 @@ def run_case(ctx, k, rng):
 
     def d(P, Q, s=sigma):
         ctx.ran()
+        if rng.random() < 0.3:
+            s = vforms.scalar_form(rng, s)       # the bandwidth as a Python int / numpy integer (sweeps over range()) / numpy float
+            ctx.seen("sigma types", type(s).__name__)
         return heat(P, Q, s)
 
     def fin(x):
